@@ -34,7 +34,7 @@ RULE = (
     "(2) diff_edge/diff: on the 17 shipped short-Weierstrass curves k*G through the shared generator (table path), k*P on fresh points in mixed "
     "representations (NAF path, table path, affine Point), mul_add, + of random/equal/inverse/infinite operands in mixed representations, double, "
     "negation and point decoding are compared with OpenSSL EC_POINT_mul/add/dbl/invert/oct2point; scalars 0,1,2,n-1,n,n+1,2n, 2^k, 2^k+-1 and random up "
-    "to 2n; non-trivial = edge scalar, special operand relation or z != 1, distinct by case hash. (2b) reuse: a POOL of 2..5 point objects on a small curve (jacobi scaled/unscaled/negated, affine, library-made, with/without order and table) is built once and used as operands of 2..10 generated operations (mul_add, +, *, double, scale, ==, unary -): every result is the group table's, whatever the same objects were operands of before. (3) ecdh: both parties through ECDH with "
+    "to 2n; non-trivial = edge scalar, special operand relation or z != 1, distinct by case hash. (2b) reuse: a POOL of 2..5 point objects on a small curve (jacobi scaled/unscaled/negated, affine, library-made, with/without order and table) is built once and used as operands of 2..10 generated operations (mul_add, +, *, double, scale, ==, unary -): every result is the group table's, whatever the same objects were operands of before. (2c) ecdh_history: ONE ECDH object through 3..9 generated steps (set_curve, load_private_key, load_received_public_key on four curves, key agreement) against a model of its curve / private key / peer key: agreement returns libcrypto's secret when all three are on one curve and never returns a value otherwise. (3) ecdh: both parties through ECDH with "
     "object/bytes/DER(SEC1,PKCS8)/PEM loaders of OpenSSL-encoded keys; both secrets must equal ECDH_compute_key; every case non-trivial. (4) invalid_*: "
     "off-curve, coordinate >= p or negative, infinity, point of another same-size curve and twist points, each confirmed invalid by ecref with OpenSSL's "
     "curve parameters, through VerifyingKey.from_string/from_der/from_pem/from_public_point and ECDH.load_received_public_key*; any exception = rejected; a "
@@ -49,7 +49,7 @@ ASSUMPTIONS = [
     "the known finding O11 is recognised by re-running the failing case with PointJacobi._add_with_z_1 fed reduced coordinates: it is excluded only if "
     "that makes the result correct AND the call saw congruent-but-unequal raw operands",
 ]
-REQUIRED_CLASSES = ["reuse.same-second-operand-other-first", "small.mul.k<0.answered.table", 
+REQUIRED_CLASSES = ["ecdh_history.agreed", "ecdh_history.set_curve-after-load", "reuse.same-second-operand-other-first", "small.mul.k<0.answered.table", 
     "small.add.equal-operands", "small.add.inverse-operands", "small.add.infinity-operand", "small.add.both-z=1", "small.add.z1==z2!=1",
     "small.add.one-z=1", "small.add.z1!=z2", "small.add.unreduced-Y-operand", "small.add.affine-Point-operand", "small.add.lib-made-operand",
     "small.mul.table", "small.mul.naf-with-order", "small.mul.naf-without-order", "small.mul.affine-Point", "small.mul.k=0", "small.mul.k=n",
@@ -777,6 +777,91 @@ def strat_reuse(tier):
     sc = st.integers(0, 70)
     op = st.tuples(st.sampled_from(["mul_add", "mul_add", "mul_add", "add", "mul", "dbl", "scale", "eq", "neg"]), st.integers(0, 7), st.integers(0, 7), sc, sc)
     return st.fixed_dictionaries(dict(cv=st.sampled_from(keys), pool=st.lists(st.tuples(rep, mode), min_size=2, max_size=5), ops=st.lists(op, min_size=2, max_size=10)))
+
+
+# =====================================================================================================================
+# ecdh_history: ONE ECDH object through a generated sequence of set_curve / load_private_key / load_received_public_key / key agreement
+# on several curves of equal size.  Model: the object's curve, private key and peer key.  Key agreement returns d*Q (x coordinate, as
+# libcrypto computes it) when all three are on one curve - and NEVER returns a value when they are not ("points on another curve are
+# rejected when ... used for key agreement"); refusals of the load operations are not judged.
+
+ECDH_CURVES = ["NIST256p", "SECP256k1", "BRAINPOOLP256r1", "NIST192p"]
+
+
+def check_ecdh_history(case, rec):
+    obj = ECDH()
+    m_curve = m_priv = m_pub = None
+    hist = []
+    agreed = mixed = 0
+    for op in case["ops"]:
+        kind = op[0]
+        name = ECDH_CURVES[op[1] % len(ECDH_CURVES)] if len(op) > 1 else None
+        cv = getattr(LC, name) if name else None
+        try:
+            if kind == "set_curve":
+                obj.set_curve(cv)
+                m_curve = name
+            elif kind == "load_priv":
+                d = 1 + op[2] % (ossl.Group.get(OSSL_NAME[name]).order - 1)
+                try:
+                    obj.load_private_key(SigningKey.from_secret_exponent(d, cv))
+                except Exception:
+                    if m_curve is None or m_curve == name:
+                        raise
+                else:
+                    if m_curve is None:
+                        m_curve = name
+                    m_priv = (name, d)
+            elif kind == "load_pub":
+                g = ossl.Group.get(OSSL_NAME[name])
+                d2 = 1 + op[2] % (g.order - 1)
+                pt = g.mul(d2)
+                try:
+                    obj.load_received_public_key(VerifyingKey.from_public_point(EC.Point(cv.curve, pt[0], pt[1]), cv))
+                except Exception:
+                    if m_curve is None or m_curve == name:
+                        raise
+                else:
+                    if m_curve is None:
+                        m_curve = name
+                    m_pub = (name, pt)
+            else:
+                same = m_priv is not None and m_pub is not None and m_priv[0] == m_curve == m_pub[0]
+                try:
+                    got = obj.generate_sharedsecret()
+                except Exception as e:
+                    if same:
+                        raise Violation("ECDH object after %r: key agreement on one curve (%s) raised %s: %s" % (hist, m_curve, type(e).__name__, exc_str(e)))
+                    mixed += 1
+                else:
+                    if not same:
+                        raise Violation("ECDH object after %r: key agreement RETURNED %#x although the object's curve is %s, its private key is on %s and the peer key on %s" % (
+                            hist, got, m_curve, m_priv and m_priv[0], m_pub and m_pub[0]))
+                    want = ossl.Group.get(OSSL_NAME[m_curve]).mul_point(m_priv[1], m_pub[1])[0]
+                    if got != want:
+                        raise Violation("ECDH object after %r: shared secret %#x, libcrypto gives %#x" % (hist, got, want))
+                    agreed += 1
+        except Violation:
+            raise
+        except Exception as e:
+            raise Violation("ECDH object after %r: %s raised %s: %s" % (hist, kind, type(e).__name__, exc_str(e)))
+        hist.append((kind, name))
+    if agreed:
+        rec.cls("ecdh_history.agreed")
+    if mixed:
+        rec.cls("ecdh_history.refused-mixed-curves")
+        if any(h[0] == "set_curve" for h in hist):
+            rec.cls("ecdh_history.set_curve-after-load")
+    if agreed or mixed:
+        rec.nt()
+
+
+def strat_ecdh_history(tier):
+    ci = st.sampled_from([0, 0, 0, 1, 1, 2, 3])
+    sc = st.integers(0, 1 << 255)
+    op = st.one_of(st.tuples(st.just("set_curve"), ci), st.tuples(st.just("load_priv"), ci, sc), st.tuples(st.just("load_pub"), ci, sc),
+                   st.tuples(st.just("secret")), st.tuples(st.just("secret")))
+    return st.fixed_dictionaries(dict(ops=st.lists(op, min_size=3, max_size=9)))
 
 
 # =====================================================================================================================
@@ -1671,6 +1756,7 @@ def parts(tier):
         Part("numtheory", check=check_numtheory, bulk=bulk_numtheory, quick=(4, 0), thorough=(8, 0), exhaustive=True),
         Part("diff_edge", check=check_diff, enum=enum_diff_edge, quick=(16, 0), thorough=(16, 0)),
         Part("diff", check=check_diff, strategy=strat_diff, quick=(16, 200), thorough=(16, 6000)),
+        Part("ecdh_history", check=check_ecdh_history, strategy=strat_ecdh_history, quick=(8, 60), thorough=(16, 800)),
         Part("ecdh", check=check_ecdh, strategy=strat_ecdh, quick=(16, 50), thorough=(16, 1500)),
         Part("invalid_grid", check=check_invalid, enum=enum_invalid_grid, quick=(8, 0), thorough=(16, 0)),
         Part("invalid", check=check_invalid, strategy=strat_invalid, quick=(8, 300), thorough=(16, 4000)),
